@@ -96,7 +96,8 @@ pub fn random_benign_knobs(r: &mut Rng) -> Knobs {
     k.server = ServerKnobs {
         chase_cnames: r.chance(0.6),
         sibling_glue: r.chance(0.3),
-        shuffle_answers: false,
+        // the order of an answer section is not something the protocol promises
+        shuffle_answers: r.chance(0.25),
         tc_every: *r.pick(&[0u32, 0, 3, 5]),
         root_glue_family: 0,
     };
